@@ -8,21 +8,30 @@ package nasTestpacket
 
 //@ func GetRegistrationRequest
 //@ trusted
+//@ ghostlog nas.built: trace.Rec(trace.RegistrationRequest, int64(registrationType), 0, 0)
 //@ func GetAuthenticationResponse
 //@ trusted
+//@ ghostlog nas.built: trace.Rec(trace.AuthenticationResponse, 0, 0, 0)
 //@ func GetSecurityModeComplete
 //@ trusted
+//@ ghostlog nas.built: trace.Rec(trace.SecurityModeComplete, 0, 0, 0)
 //@ func GetRegistrationComplete
 //@ trusted
+//@ ghostlog nas.built: trace.Rec(trace.RegistrationComplete, 0, 0, 0)
 //@ func GetDeregistrationRequest
 //@ trusted
+//@ ghostlog nas.built: trace.Rec(trace.DeregistrationRequest, int64(accessType), int64(switchOff), int64(ngKsi))
 //@ func GetServiceRequest
 //@ trusted
+//@ ghostlog nas.built: trace.Rec(trace.ServiceRequest, int64(serviceType), 0, 0)
 //@ func GetUlNasTransport_PduSessionEstablishmentRequest
 //@ trusted
+//@ ghostlog nas.built: trace.Rec(trace.PDUSessionEstablishmentRequest, int64(pduSessionId), 0, 0)
 //@ func GetUlNasTransport_PduSessionReleaseRequest
 //@ trusted
+//@ ghostlog nas.built: trace.Rec(trace.PDUSessionReleaseRequest, int64(pduSessionId), 0, 0)
 //@ func GetUlNasTransport_PduSessionReleaseComplete
 //@ trusted
+//@ ghostlog nas.built: trace.Rec(trace.PDUSessionReleaseComplete, int64(pduSessionId), 0, 0)
 //@ func GetUlNasTransport_PduSessionModificationRequest
 //@ trusted
